@@ -1,7 +1,761 @@
-//! C18 engine (not yet built).
-use crate::common::{CaseWriter, Opts};
+//! C18 — interned strings stay canonical (engine `c18`), garbage cycles are reclaimed (engine `c18gc`).
+//!
+//! `c18`: operation histories over the REAL `jrsonnet_interner` (`IStr::from`, `IBytes::from`,
+//! `clone`, `drop`, `cast_str`, `cast_bytes`, `interop::{exit_thread,reenter_thread}` across real OS
+//! threads).  After every operation the pool size, and for every live value its contents, its
+//! reference count (`verif_refcnt`), its `==` class and whether the pool entry for its contents is
+//! this very allocation are written next to the `intern.replay` model operation.  Every history
+//! starts on an empty thread-local pool (worker threads; leftovers of a failed history are detached).
+//!
+//! `c18gc`: programs with cyclic structures (self reference, recursive closures, mutual locals,
+//! cached object-local contexts), succeeding, failing and cut off by the stack limit, are evaluated
+//! twice on a fresh thread; result and `State` are dropped, `collect_thread_cycles()` runs, and
+//! `count_thread_tracked()` / `verif_pool_len()` after the second run are compared with the values
+//! after the first (which absorbs lazily created thread-local singletons).
+use std::{
+	collections::BTreeMap,
+	sync::{
+		mpsc::{channel, Sender},
+		Arc,
+	},
+};
+
+use jrsonnet_evaluator::manifest::JsonFormat;
+use jrsonnet_interner::{
+	interop::{exit_thread, reenter_thread, PoolState},
+	verif::{verif_addr, verif_addr_bytes, verif_pool_addr, verif_pool_len, verif_refcnt, verif_refcnt_bytes},
+	IBytes, IStr,
+};
+use serde_json::{json, Value};
+
+use crate::common::{err_class, guarded, new_state, CaseWriter, Opts, Rng};
 
 pub fn run(opts: &Opts) {
-	let w = CaseWriter::new(&opts.out);
-	w.finish(serde_json::json!({"engine":"c18","cases":0,"rule":"stub"}), &opts.out);
+	if opts.engine == "c18gc" {
+		run_gc(opts);
+	} else {
+		run_intern(opts);
+	}
+}
+
+// ---------------------------------------------------------------------------------------------
+// interner
+// ---------------------------------------------------------------------------------------------
+
+#[derive(Clone, Debug, PartialEq)]
+enum Op {
+	IS(Vec<u8>),
+	IB(Vec<u8>),
+	Cl(usize),
+	Dr(usize),
+	Cs(usize),
+	Cb(usize),
+	Ho,
+}
+impl Op {
+	fn json(&self) -> Value {
+		match self {
+			Op::IS(b) => json!(["is", b]),
+			Op::IB(b) => json!(["ib", b]),
+			Op::Cl(i) => json!(["cl", i]),
+			Op::Dr(i) => json!(["dr", i]),
+			Op::Cs(i) => json!(["cs", i]),
+			Op::Cb(i) => json!(["cb", i]),
+			Op::Ho => json!(["ho"]),
+		}
+	}
+	fn tag(&self) -> &'static str {
+		match self {
+			Op::IS(_) => "is",
+			Op::IB(_) => "ib",
+			Op::Cl(_) => "cl",
+			Op::Dr(_) => "dr",
+			Op::Cs(_) => "cs",
+			Op::Cb(_) => "cb",
+			Op::Ho => "ho",
+		}
+	}
+	fn from_json(v: &Value) -> Option<Self> {
+		let a = v.as_array()?;
+		let bytes = |v: &Value| -> Option<Vec<u8>> {
+			v.as_array()?.iter().map(|x| x.as_u64().map(|x| x as u8)).collect()
+		};
+		Some(match a.first()?.as_str()? {
+			"is" => Op::IS(bytes(a.get(1)?)?),
+			"ib" => Op::IB(bytes(a.get(1)?)?),
+			"cl" => Op::Cl(a.get(1)?.as_u64()? as usize),
+			"dr" => Op::Dr(a.get(1)?.as_u64()? as usize),
+			"cs" => Op::Cs(a.get(1)?.as_u64()? as usize),
+			"cb" => Op::Cb(a.get(1)?.as_u64()? as usize),
+			"ho" => Op::Ho,
+			_ => return None,
+		})
+	}
+}
+
+enum H {
+	S(IStr),
+	B(IBytes),
+}
+impl H {
+	fn data(&self) -> Vec<u8> {
+		match self {
+			H::S(s) => s.as_str().as_bytes().to_vec(),
+			H::B(b) => b.as_slice().to_vec(),
+		}
+	}
+	fn addr(&self) -> usize {
+		match self {
+			H::S(s) => verif_addr(s),
+			H::B(b) => verif_addr_bytes(b),
+		}
+	}
+	fn rc(&self) -> u32 {
+		match self {
+			H::S(s) => verif_refcnt(s),
+			H::B(b) => verif_refcnt_bytes(b),
+		}
+	}
+	/// the library's own `==` where the types allow it, address identity across the two types
+	fn same(&self, o: &H) -> bool {
+		match (self, o) {
+			(H::S(a), H::S(b)) => a == b,
+			(H::B(a), H::B(b)) => a == b,
+			(a, b) => a.addr() == b.addr(),
+		}
+	}
+}
+
+fn observe(hs: &[H]) -> Value {
+	let mut out = Vec::with_capacity(hs.len());
+	for (i, h) in hs.iter().enumerate() {
+		let data = h.data();
+		let cls = (0..=i).find(|&j| hs[j].same(h)).unwrap_or(i);
+		let pooled = verif_pool_addr(&data) == Some(h.addr());
+		out.push(json!([data, matches!(h, H::S(_)), h.rc(), cls, pooled]));
+	}
+	json!({"pool": verif_pool_len(), "hs": out})
+}
+
+/// one non-handover operation on the real interner
+fn apply(hs: &mut Vec<H>, op: &Op) {
+	match op {
+		Op::IS(b) => {
+			let s = std::str::from_utf8(b).expect("generator only interns UTF-8 as str");
+			hs.push(H::S(IStr::from(s)));
+		}
+		Op::IB(b) => hs.push(H::B(IBytes::from(b.as_slice()))),
+		Op::Cl(i) => {
+			let c = match &hs[*i] {
+				H::S(s) => H::S(s.clone()),
+				H::B(b) => H::B(b.clone()),
+			};
+			hs.push(c);
+		}
+		Op::Dr(i) => {
+			let h = hs.remove(*i);
+			drop(h);
+		}
+		Op::Cs(i) => {
+			let h = hs.remove(*i);
+			match h {
+				H::B(b) => {
+					if let Some(s) = b.cast_str() {
+						hs.insert(*i, H::S(s));
+					}
+				}
+				H::S(_) => unreachable!("generator: cast_str on a str"),
+			}
+		}
+		Op::Cb(i) => {
+			let h = hs.remove(*i);
+			match h {
+				H::S(s) => hs.insert(*i, H::B(s.cast_bytes())),
+				H::B(_) => unreachable!("generator: cast_bytes on bytes"),
+			}
+		}
+		Op::Ho => unreachable!(),
+	}
+}
+
+struct Carry(Vec<H>, Vec<Value>, usize);
+// SAFETY: this is the documented hand-over protocol of `interop`: the whole interner state of the
+// old thread (pool + every live value) moves together and the old thread does not touch it again.
+unsafe impl Send for Carry {}
+impl Carry {
+	fn take(self) -> (Vec<H>, Vec<Value>, usize) {
+		(self.0, self.1, self.2)
+	}
+}
+
+type Outcome = (Vec<Value>, Value);
+
+/// A history (or the rest of one, after a hand-over) to run on a worker thread.
+struct Job {
+	ops: Arc<Vec<Op>>,
+	from: usize,
+	carry: Option<Carry>,
+	reply: Sender<Outcome>,
+}
+
+/// Worker threads form a chain: worker i hands over to worker i+1 (created on demand) and waits
+/// for the outcome.  A worker's thread-local pool is empty whenever it is idle, as long as every
+/// history so far ended healthy (otherwise `scrub_pool` detaches the leftovers).
+fn spawn_worker() -> Sender<Job> {
+	let (tx, rx) = channel::<Job>();
+	std::thread::spawn(move || {
+		let mut next: Option<Sender<Job>> = None;
+		for job in rx {
+			let (hs, steps) = match job.carry {
+				Some(c) => {
+					let (hs, mut steps, st) = c.take();
+					scrub_pool();
+					// SAFETY: `st` comes from `exit_thread`, used once
+					unsafe { reenter_thread(st as *mut PoolState) };
+					steps.push(observe(&hs));
+					(hs, steps)
+				}
+				None => (Vec::new(), Vec::new()),
+			};
+			let out = exec(&job.ops, job.from, hs, steps, &mut next);
+			let _ = job.reply.send(out);
+		}
+	});
+	tx
+}
+
+/// Runs `ops[from..]`; returns (observations, pool size after dropping every value).
+fn exec(ops: &Arc<Vec<Op>>, from: usize, mut hs: Vec<H>, mut steps: Vec<Value>, next: &mut Option<Sender<Job>>) -> Outcome {
+	for i in from..ops.len() {
+		if ops[i] == Op::Ho {
+			let st = exit_thread() as usize;
+			let (rtx, rrx) = channel();
+			let job = Job { ops: ops.clone(), from: i + 1, carry: Some(Carry(hs, steps, st)), reply: rtx };
+			let tx = next.get_or_insert_with(spawn_worker);
+			if tx.send(job).is_err() {
+				return (vec![json!("panic")], json!("panic"));
+			}
+			return rrx.recv().unwrap_or_else(|_| (vec![json!("panic")], json!("panic")));
+		}
+		match guarded(|| {
+			apply(&mut hs, &ops[i]);
+			observe(&hs)
+		}) {
+			Ok(o) => steps.push(o),
+			Err(_) => {
+				steps.push(json!("panic"));
+				std::mem::forget(hs);
+				scrub_pool();
+				return (steps, json!("panic"));
+			}
+		}
+	}
+	// values are dropped one at a time: a second panic while a first one unwinds through the
+	// remaining elements of the Vec would abort the whole process
+	let mut end = json!(null);
+	while let Some(h) = hs.pop() {
+		if guarded(move || drop(h)).is_err() {
+			std::mem::forget(std::mem::take(&mut hs));
+			end = json!("panic");
+		}
+	}
+	if end.is_null() {
+		end = guarded(verif_pool_len).map_or(json!("panic"), |n| json!(n));
+	}
+	scrub_pool();
+	(steps, end)
+}
+
+/// A history that ended unhealthy may leave entries in this thread's pool; they are leaked (the
+/// pool is detached with `exit_thread` and never reinstalled) so that the next history starts on
+/// an empty pool again.
+fn scrub_pool() {
+	if guarded(verif_pool_len).map_or(true, |n| n != 0) {
+		let _ = guarded(exit_thread);
+	}
+}
+
+thread_local! {
+	static CHAIN: std::cell::RefCell<Option<Sender<Job>>> = const { std::cell::RefCell::new(None) };
+}
+
+fn run_history(ops: &[Op]) -> Outcome {
+	let ops = Arc::new(ops.to_vec());
+	CHAIN.with_borrow_mut(|chain| {
+		let (rtx, rrx) = channel();
+		let tx = chain.get_or_insert_with(spawn_worker);
+		let sent = tx.send(Job { ops, from: 0, carry: None, reply: rtx }).is_ok();
+		let out = if sent { rrx.recv().ok() } else { None };
+		if out.is_none() {
+			// a worker died: the next history starts on fresh threads
+			*chain = None;
+		}
+		out.unwrap_or_else(|| (vec![json!("panic")], json!("panic")))
+	})
+}
+
+/// generator-side bookkeeping: (contents, is_str) of the values the history holds
+type Shadow = Vec<(Vec<u8>, bool)>;
+
+fn shadow_apply(sh: &mut Shadow, op: &Op) {
+	match op {
+		Op::IS(b) => sh.push((b.clone(), true)),
+		Op::IB(b) => sh.push((b.clone(), false)),
+		Op::Cl(i) => {
+			let h = sh[*i].clone();
+			sh.push(h);
+		}
+		Op::Dr(i) => {
+			sh.remove(*i);
+		}
+		Op::Cs(i) => {
+			if std::str::from_utf8(&sh[*i].0).is_ok() {
+				sh[*i].1 = true;
+			} else {
+				sh.remove(*i);
+			}
+		}
+		Op::Cb(i) => sh[*i].1 = false,
+		Op::Ho => {}
+	}
+}
+
+fn allowed(sh: &Shadow, interns: &[Op], handover: bool) -> Vec<Op> {
+	let mut v: Vec<Op> = interns.to_vec();
+	for (i, (_, is_str)) in sh.iter().enumerate() {
+		v.push(Op::Cl(i));
+		v.push(Op::Dr(i));
+		if *is_str {
+			v.push(Op::Cb(i));
+		} else {
+			v.push(Op::Cs(i));
+		}
+	}
+	if handover {
+		v.push(Op::Ho);
+	}
+	v
+}
+
+struct Stats {
+	ops: BTreeMap<&'static str, usize>,
+	lens: BTreeMap<usize, usize>,
+	max_live: usize,
+	histories: usize,
+}
+
+fn emit(w: &mut CaseWriter, st: &mut Stats, ops: &[Op], every: bool, kind: &str) {
+	let (steps, end) = run_history(ops);
+	let steps = if every {
+		steps
+	} else {
+		steps.last().cloned().into_iter().collect()
+	};
+	for o in ops {
+		*st.ops.entry(o.tag()).or_default() += 1;
+	}
+	*st.lens.entry(ops.len()).or_default() += 1;
+	st.histories += 1;
+	let opj: Vec<Value> = ops.iter().map(Op::json).collect();
+	w.case(
+		json!({"op":"intern.replay","ops":opj,"every":every,"size":ops.len(),"_kind":kind}),
+		json!({"steps": steps, "end": end}),
+	);
+}
+
+/// every valid history of exactly `len` ops over the given intern operations
+fn enumerate(
+	w: &mut CaseWriter,
+	st: &mut Stats,
+	prefix: &mut Vec<Op>,
+	sh: &Shadow,
+	interns: &[Op],
+	handover: bool,
+	len: usize,
+) {
+	if prefix.len() == len {
+		st.max_live = st.max_live.max(sh.len());
+		emit(w, st, prefix, len <= 2, "exhaustive");
+		return;
+	}
+	for op in allowed(sh, interns, handover) {
+		// a hand-over directly after a hand-over or as first op adds nothing
+		if op == Op::Ho && prefix.last().map_or(true, |p| *p == Op::Ho) {
+			continue;
+		}
+		let mut sh2 = sh.clone();
+		shadow_apply(&mut sh2, &op);
+		prefix.push(op);
+		enumerate(w, st, prefix, &sh2, interns, handover, len);
+		prefix.pop();
+	}
+}
+
+const E_ACUTE: &[u8] = &[0xC3, 0xA9];
+
+fn run_intern(opts: &Opts) {
+	let mut w = CaseWriter::new(&opts.out);
+	let mut st = Stats { ops: BTreeMap::new(), lens: BTreeMap::new(), max_live: 0, histories: 0 };
+
+	if let Some(rp) = &opts.replay {
+		// replay file: {"op": {"op":"intern.replay","ops":[..]}} as written by ./check
+		let v: Value = serde_json::from_str(&std::fs::read_to_string(rp).expect("replay")).expect("json");
+		let opv = v.get("op").cloned().unwrap_or(v);
+		if opv.get("op").and_then(Value::as_str) == Some("intern.replay") {
+			let ops: Vec<Op> = opv["ops"].as_array().expect("ops").iter().filter_map(Op::from_json).collect();
+			emit(&mut w, &mut st, &ops, true, "replay");
+		} else if opv.get("op").and_then(Value::as_str) == Some("intern.utf8") {
+			let bs: Vec<Vec<u8>> = serde_json::from_value(opv["bs"].clone()).expect("bs");
+			utf8_case(&mut w, &bs);
+		}
+		w.finish(json!({"engine":"c18","rule":"replay","cases":st.histories}), &opts.out);
+		return;
+	}
+
+	// the witness histories named in Props/C18.lean (non-vacuity examples) run on the real code
+	let witness: Vec<Op> = vec![
+		Op::IS(b"a".to_vec()),
+		Op::IB(b"a".to_vec()),
+		Op::IB(vec![0xFF]),
+		Op::Cl(0),
+		Op::Cs(2),
+		Op::Cs(1),
+		Op::Dr(0),
+		Op::Ho,
+		Op::Dr(0),
+		Op::Dr(0),
+	];
+	emit(&mut w, &mut st, &witness, true, "witness");
+
+	// 1. exhaustive histories
+	let full: Vec<Op> = vec![
+		Op::IS(b"a".to_vec()),
+		Op::IS(E_ACUTE.to_vec()),
+		Op::IS(Vec::new()),
+		Op::IB(b"a".to_vec()),
+		Op::IB(E_ACUTE.to_vec()),
+		Op::IB(vec![0xFF]),
+		Op::IB(vec![0xC3]),
+	];
+	let small: Vec<Op> = vec![Op::IS(b"a".to_vec()), Op::IB(b"a".to_vec()), Op::IB(vec![0xFF]), Op::IS(b"b".to_vec())];
+	let tiny: Vec<Op> = vec![Op::IS(b"a".to_vec()), Op::IB(b"a".to_vec()), Op::IB(vec![0xFF])];
+	let (full_d, small_d, tiny_d) = if opts.thorough() { (5, 6, 7) } else { (4, 5, 5) };
+	for len in 1..=full_d {
+		enumerate(&mut w, &mut st, &mut Vec::new(), &Vec::new(), &full, true, len);
+	}
+	for len in (full_d + 1)..=small_d {
+		enumerate(&mut w, &mut st, &mut Vec::new(), &Vec::new(), &small, true, len);
+	}
+	for len in (small_d + 1)..=tiny_d {
+		enumerate(&mut w, &mut st, &mut Vec::new(), &Vec::new(), &tiny, false, len);
+	}
+	let exhaustive = st.histories;
+
+	// 2. long random histories over a larger alphabet (valid and invalid UTF-8)
+	let alphabet: Vec<Vec<u8>> = vec![
+		vec![],
+		b"a".to_vec(),
+		b"b".to_vec(),
+		b"ab".to_vec(),
+		vec![0],
+		E_ACUTE.to_vec(),
+		"\u{20ac}".as_bytes().to_vec(),
+		"\u{1F600}".as_bytes().to_vec(),
+		"a\u{e9}\u{20ac}".as_bytes().to_vec(),
+		vec![0xFF],
+		vec![0xC3],
+		vec![0xE2, 0x82],
+		vec![0xED, 0xA0, 0x80],
+		vec![0xC0, 0x80],
+		vec![0xF4, 0x90, 0x80, 0x80],
+		vec![0x61, 0xFF],
+		"x".repeat(300).into_bytes(),
+	];
+	let mut rng = Rng::new(opts.seed);
+	let n_random = if opts.thorough() { 2000 } else { 200 };
+	for _ in 0..n_random {
+		let len = 20 + rng.below(181);
+		let target = 1 + rng.below(12);
+		let few = 1 + rng.below(alphabet.len());
+		let mut sh: Shadow = Vec::new();
+		let mut ops = Vec::with_capacity(len);
+		let mut handovers = 0;
+		for _ in 0..len {
+			let grow = sh.len() < target;
+			let r = rng.below(100);
+			let op = if sh.is_empty() || (grow && r < 45) || (!grow && r < 10) {
+				let b = alphabet[rng.below(few)].clone();
+				if std::str::from_utf8(&b).is_ok() && rng.chance(1, 2) {
+					Op::IS(b)
+				} else {
+					Op::IB(b)
+				}
+			} else if r < 3 + 10 && handovers < 3 && rng.chance(1, 6) {
+				handovers += 1;
+				Op::Ho
+			} else {
+				let i = rng.below(sh.len());
+				let k = rng.below(if grow { 10 } else { 14 });
+				match k {
+					0..=2 => Op::Cl(i),
+					3..=5 => {
+						if sh[i].1 {
+							Op::Cb(i)
+						} else {
+							Op::Cs(i)
+						}
+					}
+					_ => Op::Dr(i),
+				}
+			};
+			shadow_apply(&mut sh, &op);
+			st.max_live = st.max_live.max(sh.len());
+			ops.push(op);
+		}
+		emit(&mut w, &mut st, &ops, true, "random");
+	}
+
+	// 3. UTF-8 validity of the model against `cast_str` (i.e. `str::from_utf8`) on boundary bytes
+	let bset: Vec<u8> = vec![
+		0x00, 0x41, 0x7F, 0x80, 0x8F, 0x90, 0x9F, 0xA0, 0xBF, 0xC0, 0xC1, 0xC2, 0xDF, 0xE0, 0xE1, 0xEC, 0xED, 0xEE,
+		0xEF, 0xF0, 0xF1, 0xF3, 0xF4, 0xF5, 0xFF,
+	];
+	let mut all: Vec<Vec<u8>> = vec![vec![]];
+	for a in 0..=255u8 {
+		all.push(vec![a]);
+	}
+	for &a in &bset {
+		for &b in &bset {
+			all.push(vec![a, b]);
+			if a >= 0xC0 {
+				for &c in &bset {
+					all.push(vec![a, b, c]);
+				}
+			}
+		}
+	}
+	let n4 = if opts.thorough() { 200_000 } else { 20_000 };
+	for _ in 0..n4 {
+		let l = 3 + rng.below(4);
+		let mut v = Vec::new();
+		if rng.chance(1, 2) {
+			v.push(*rng.pick(&[0xF0u8, 0xF1, 0xF3, 0xF4, 0xE0, 0xED, 0xEF]));
+		}
+		while v.len() < l {
+			v.push(*rng.pick(&bset));
+		}
+		all.push(v);
+	}
+	let utf8_total = all.len();
+	for chunk in all.chunks(256) {
+		utf8_case(&mut w, chunk);
+	}
+
+	let mut len_hist: BTreeMap<String, usize> = BTreeMap::new();
+	for (k, v) in &st.lens {
+		let b = match *k {
+			0..=7 => format!("{k}"),
+			8..=50 => "08-50".to_string(),
+			51..=100 => "51-100".to_string(),
+			_ => "101-200".to_string(),
+		};
+		*len_hist.entry(b).or_default() += v;
+	}
+	w.finish(
+		json!({
+			"engine": "c18",
+			"rule": format!("interner histories: exhaustive valid op sequences (7 intern ops x clone/drop/cast on every live value x hand-over) to length {full_d}, 4 intern ops to {small_d}, 3 to {tiny_d}; {n_random} random histories of 20..200 ops over {} contents; {utf8_total} byte strings through cast_str", alphabet.len()),
+			"histories": st.histories,
+			"exhaustive_histories": exhaustive,
+			"random_histories": n_random,
+			"op_histogram": st.ops,
+			"length_histogram": len_hist,
+			"max_live_values": st.max_live,
+			"utf8_strings": utf8_total,
+		}),
+		&opts.out,
+	);
+}
+
+fn utf8_case(w: &mut CaseWriter, chunk: &[Vec<u8>]) {
+	let valid: Vec<bool> = std::thread::scope(|sc| {
+		sc.spawn(|| chunk.iter().map(|b| IBytes::from(b.as_slice()).cast_str().is_some()).collect())
+			.join()
+			.unwrap_or_default()
+	});
+	w.case(
+		json!({"op":"intern.utf8","bs":chunk,"size":chunk.len(),"trivial":false}),
+		json!({"valid": valid}),
+	);
+}
+
+// ---------------------------------------------------------------------------------------------
+// collector
+// ---------------------------------------------------------------------------------------------
+
+/// (tag, template); `{K}` is replaced by a small number, `{S}` by a string literal
+const TEMPLATES: &[(&str, &str)] = &[
+	("self-ref", "{a: self, b: {K}}.a.a.b"),
+	("self-ref-local", "local o = {x: o, y: {K}}; o.x.x.y"),
+	("dollar", "{f: $.g, g: {K}, h: {i: $.f}}"),
+	("rec-closure", "local f(n) = if n == 0 then 0 else 1 + f(n - 1); f({K})"),
+	("rec-closure-kept", "local f(n) = if n == 0 then [] else [f] + f(n - 1); std.length(f({K}))"),
+	("mutual-locals", "local a = {b: b, v: {K}}, b = {a: a}; a.b.a.v"),
+	("mutual-fns", "local even(n) = if n == 0 then true else odd(n - 1), odd(n) = if n == 0 then false else even(n - 1); even({K})"),
+	("obj-local-ctx", "{local x = self.y, local z = x + 1, y: {K}, w: z, v: {local q = $.w, r: q}}"),
+	("obj-local-fn", "{local f(a) = a + self.y, y: {K}, z: f(1), zz: f(2)}"),
+	("super-chain", "({a: {K}, b: self.a} + {a: super.a + 1, c: super.b} + {a+: 1}).c"),
+	("inherit-self", "local base = {n: 'x', greet: 'hi ' + self.n}; (base {n: {S}}).greet"),
+	("arr-thunks", "local arr = [function() arr[1], {K}, arr]; arr[0]() + std.length(arr[2])"),
+	("comprehension", "{[k]: {me: $, v: k} for k in ['a', 'b', {S}]}"),
+	("arr-comp-closure", "local fs = [function(y) x + y + std.length(fs) for x in std.range(0, {K})]; fs[0](1)"),
+	("std-map", "std.map(function(x) {v: x, o: self}, std.range(1, {K}))"),
+	("std-foldl", "std.foldl(function(a, b) a + {[std.toString(b)]: a}, std.range(1, 4), {})"),
+	("make-array", "local t = std.makeArray({K} + 1, function(i) if i == 0 then 0 else t[i - 1] + 1); t[{K}]"),
+	("merge-patch", "std.mergePatch({a: {b: {K}, c: {S}}}, {a: {b: null, d: {e: 1}}})"),
+	("object-fields", "local o = {a: 1, b:: self, c::: o}; std.objectFieldsAll(o)"),
+	("string-bytes", "std.decodeUTF8(std.encodeUTF8({S} + 'é')) + std.base64(std.base64DecodeBytes(std.base64({S})))"),
+	("format", "'%s-%d' % [{S}, {K}] + std.format('%(a)s', {a: {S}})"),
+	("tailstrict", "local f(n, acc) = if n == 0 then acc else f(n - 1, acc + 1) tailstrict; f({K}, 0)"),
+	("lazy-unused-cycle", "local o = {x: o, boom: error 'never'}; {K}"),
+	("cached-field", "local o = {big: std.range(0, {K}), n: std.length(self.big), m: self.n + self.n}; o.m + o.m"),
+	// failing
+	("err-in-cycle", "local o = {x: o, y: error {S}}; o.x.x.y"),
+	("err-field", "{a: self.b, b: error 'boom' + {S}}.a"),
+	("err-assert", "{assert self.x > {K} : 'small', x: 1, me: self}.me.x"),
+	("err-late-manifest", "{a: {K}, b: {c: self, d: error 'late'}}"),
+	("err-type", "local o = {x: o}; o.x + {K}"),
+	("err-nofield", "local o = {x: o}; o.x.x.nope"),
+	("err-in-map", "std.map(function(x) if x == 2 then error 'two' else {s: self}, std.range(0, {K}))"),
+	("err-arity", "local f(a) = f; f(1, 2)"),
+	// cut off by the stack limit
+	("stack-fn", "local f(x) = f(x + 1) + 1; f({K})"),
+	("stack-self", "{a: self.a}.a"),
+	("stack-local-obj", "local o = {x: o.x, k: {K}}; o.x"),
+	("stack-mutual", "local a = {v: b.v}, b = {v: a.v}; a.v"),
+	("stack-objs", "local f(n) = {n: n, next: f(n + 1), me: self}; std.length(std.toString(f({K})))"),
+	("stack-arr", "local f(n) = [n, f(n + 1)]; f(0)"),
+	("stack-deep-super", "std.foldl(function(a, b) a + {v: super.v + b, s: self}, std.range(1, 400), {v: 0}).v"),
+];
+
+fn gc_once(code: &str) -> String {
+	let s = new_state();
+	let r = guarded(|| {
+		let v = s.evaluate_snippet("<gc>".to_owned(), code.to_owned())?;
+		v.manifest(JsonFormat::minify())
+	});
+	let class = match &r {
+		Ok(Ok(_)) => "ok".to_string(),
+		Ok(Err(e)) => format!("err:{}", err_class(e)),
+		Err(_) => "panic".to_string(),
+	};
+	drop(r);
+	drop(s);
+	class
+}
+
+fn gc_measure(code: &str) -> Value {
+	let code = code.to_owned();
+	std::thread::Builder::new()
+		.stack_size(256 << 20)
+		.spawn(move || {
+			let fresh_tracked = jrsonnet_gcmodule::count_thread_tracked();
+			let c1 = gc_once(&code);
+			jrsonnet_gcmodule::collect_thread_cycles();
+			let base_tracked = jrsonnet_gcmodule::count_thread_tracked() as i64;
+			let base_pool = verif_pool_len() as i64;
+			let c2 = gc_once(&code);
+			let uncollected = jrsonnet_gcmodule::count_thread_tracked() as i64 - base_tracked;
+			jrsonnet_gcmodule::collect_thread_cycles();
+			let tracked = jrsonnet_gcmodule::count_thread_tracked() as i64;
+			let pool = verif_pool_len() as i64;
+			json!({
+				"tracked_leaked": tracked - base_tracked,
+				"pool_leaked": pool - base_pool,
+				"panic": c1 == "panic" || c2 == "panic",
+				"_class": c2,
+				"_class_first": c1,
+				"_baseline_tracked": base_tracked,
+				"_fresh_tracked": fresh_tracked,
+				"_cyclic_garbage_before_collect": uncollected,
+				"_baseline_pool": base_pool,
+			})
+		})
+		.expect("spawn")
+		.join()
+		.unwrap_or_else(|_| json!({"tracked_leaked": -1, "pool_leaked": -1, "panic": true, "_class": "thread-panic"}))
+}
+
+fn instantiate(t: &str, rng: &mut Rng) -> String {
+	let k = *rng.pick(&[0usize, 1, 2, 3, 7, 20]);
+	let s = *rng.pick(&["'s'", "''", "'é€'", "'a b'", "\"q\\n\""]);
+	t.replace("{K}", &k.to_string()).replace("{S}", s)
+}
+
+fn run_gc(opts: &Opts) {
+	let mut w = CaseWriter::new(&opts.out);
+	let mut classes: BTreeMap<String, usize> = BTreeMap::new();
+	let mut tags: BTreeMap<String, usize> = BTreeMap::new();
+	let mut garbage = 0usize;
+	let mut push = |w: &mut CaseWriter, tag: &str, code: String| {
+		let m = gc_measure(&code);
+		*classes.entry(m["_class"].as_str().unwrap_or("?").to_string()).or_default() += 1;
+		*tags.entry(tag.to_string()).or_default() += 1;
+		if m["_cyclic_garbage_before_collect"].as_i64().unwrap_or(0) > 0 {
+			garbage += 1;
+		}
+		w.case(json!({"op":"gc.observe","prog":code,"tag":tag,"size":code.len()}), m);
+	};
+	if let Some(rp) = &opts.replay {
+		let v: Value = serde_json::from_str(&std::fs::read_to_string(rp).expect("replay")).expect("json");
+		let opv = v.get("op").cloned().unwrap_or(v);
+		if let Some(code) = opv.get("prog").and_then(Value::as_str) {
+			push(&mut w, "replay", code.to_string());
+		}
+		w.finish(json!({"engine":"c18gc","rule":"replay"}), &opts.out);
+		return;
+	}
+	let mut rng = Rng::new(opts.seed ^ 0xC18);
+	// every template with two parameter choices
+	for (tag, t) in TEMPLATES {
+		for _ in 0..(if opts.thorough() { 8 } else { 3 }) {
+			let code = instantiate(t, &mut rng);
+			push(&mut w, tag, code);
+		}
+	}
+	// combinations: several cyclic structures alive at once, some failing
+	let n_combo = if opts.thorough() { 3000 } else { 300 };
+	for _ in 0..n_combo {
+		let n = 2 + rng.below(3);
+		let parts: Vec<String> = (0..n)
+			.map(|_| {
+				let (_, t) = rng.pick(TEMPLATES);
+				format!("({})", instantiate(t, &mut rng))
+			})
+			.collect();
+		let code = match rng.below(3) {
+			0 => format!("[{}]", parts.join(", ")),
+			1 => format!(
+				"{{{}}}",
+				parts.iter().enumerate().map(|(i, p)| format!("f{i}: {p}")).collect::<Vec<_>>().join(", ")
+			),
+			_ => format!(
+				"local keep = [{}]; local me = {{k: keep, m: me}}; std.length(me.m.k)",
+				parts.join(", ")
+			),
+		};
+		push(&mut w, "combo", code);
+	}
+	let cases = w.n;
+	w.finish(
+		json!({
+			"engine": "c18gc",
+			"rule": format!("collector: {} cyclic-structure templates (self reference, recursive closures, mutual locals, object-local contexts; succeeding / failing / stack-limited) x parameters + {n_combo} random combinations; each evaluated twice on a fresh thread, State and result dropped, collect_thread_cycles(); tracked objects and pool size after run 2 == after run 1", TEMPLATES.len()),
+			"programs": cases,
+			"result_class_histogram": classes,
+			"template_histogram": tags,
+			"programs_that_left_cyclic_garbage_for_the_collector": garbage,
+		}),
+		&opts.out,
+	);
 }
